@@ -23,10 +23,10 @@ RULE = ("a 3-axis grid (X: center/left/outer, Y: center/left, Z: center); regist
         "it equals. Plus implementation-level relations: integrate, average, derivative, metric_weighted. "
         "Non-trivial = the registry offers more than one candidate for the query.")
 
-DIMS = {"dx_c": ["xc"], "dx_l": ["xl"], "dx_o": ["xo"], "dy_c": ["yc"], "dy_l": ["yl"], "dz_c": ["zc"],
+DIMS = {"dx_c": ["xc"], "dx_c2": ["xc"], "dx_l": ["xl"], "dx_o": ["xo"], "dy_c": ["yc"], "dy_l": ["yl"], "dz_c": ["zc"],
         "a_cc": ["yc", "xc"], "a_lc": ["yc", "xl"], "a_cl": ["yl", "xc"], "a_ll": ["yl", "xl"],
         "v_xz": ["zc", "xc"], "v_yz": ["zc", "yc"], "vol": ["zc", "yc", "xc"]}
-KEY = {"dx_c": ["X"], "dx_l": ["X"], "dx_o": ["X"], "dy_c": ["Y"], "dy_l": ["Y"], "dz_c": ["Z"],
+KEY = {"dx_c": ["X"], "dx_c2": ["X"], "dx_l": ["X"], "dx_o": ["X"], "dy_c": ["Y"], "dy_l": ["Y"], "dz_c": ["Z"],
        "a_cc": ["X", "Y"], "a_lc": ["X", "Y"], "a_cl": ["X", "Y"], "a_ll": ["X", "Y"],
        "v_xz": ["X", "Z"], "v_yz": ["Y", "Z"], "vol": ["X", "Y", "Z"]}
 SIZES = {"xc": 3, "xl": 3, "xo": 4, "yc": 2, "yl": 2, "zc": 2, "t": 2}
@@ -55,6 +55,15 @@ def generate(rng, tier):
             if rng.random() < 0.3:
                 key.reverse()
             history.append({"key": key, "names": [nm], "overwrite": True})
+        if rng.random() < 0.3:
+            # a batch that replaces a registered variable and adds one at another position in one call
+            xs = [h for h in history if h["key"] in (["X"],)]
+            if xs:
+                first = xs[0]["names"][0]
+                repl = {"dx_c": "dx_c2", "dx_c2": "dx_c"}.get(first)
+                other = rng.choice([n for n in ("dx_l", "dx_o") if n not in [x["names"][0] for x in xs]] or ["dx_l"])
+                if repl:
+                    history.append({"key": ["X"], "names": [repl, other], "overwrite": True})
         naxes = rng.choice([1, 1, 2, 2, 3])
         axes = rng.sample(["X", "Y", "Z"], naxes)
         adims = []
